@@ -2,7 +2,7 @@
 import ast
 
 from engine.index import AnalysisError
-from engine.helpers import (resolver, facts_at, lit_cmp, describe_facts, unparse, walk_no_nested, returns, deref,
+from engine.helpers import (resolver, facts_at, lit_cmp, describe_facts, unparse, walk_no_nested, returns, deref, reaching_def,
                             body_only_aborts, is_abort_stmt)
 from engine.fold import EnumConst, Ref
 from engine import rx
@@ -488,12 +488,39 @@ def c07_5(ctx):
             want = to_lin(ast.parse(f'2 ** (8 * ({unparse(n_expr)})) - 1', mode='eval').body, r5)
             ok = to_lin(mask, r5).key() == want.key()
             nd = deref(ctx, comp, n_expr, tb[0])
+            # the length variable must denote the same definition where the mask is built and where the bytes are split
+            if isinstance(n_expr, ast.Name):
+                mask_stmt = next((st_ for st_ in ast.walk(comp.node) if isinstance(st_, ast.Assign) and st_.value is val), None)
+                d_mask = reaching_def(ctx, comp, n_expr.id, mask_stmt) if mask_stmt is not None else None
+                d_use = reaching_def(ctx, comp, n_expr.id, tb[0])
+                if d_mask is not d_use:
+                    ok = False
+                    detail_extra = f' ({n_expr.id} is redefined between the mask and to_bytes: mask uses {unparse(d_mask) if d_mask is not None else None})'
+                else:
+                    detail_extra = ''
+            else:
+                detail_extra = ''
             n_ok = isinstance(nd, ast.Call) and unparse(nd.func) == 'max' and any(
                 to_lin(a, r5).key() == to_lin(ast.parse('byte_idx + 1', mode='eval').body, r5).key() for a in nd.args)
             ok = ok and n_ok
-            detail = f'mask {unparse(mask)}; length {unparse(n_expr)} = {unparse(nd)}'
+            detail = f'mask {unparse(mask)}; length {unparse(n_expr)} = {unparse(nd)}' + detail_extra
         ctx.check(ok, 'function:twos-complement-width', comp.site(tb[0]),
                   'the argument is reduced modulo 2**(8*N) for the same N >= n+1 bytes it is split into (sign extension up to byte n)', detail)
+    # the lexer admits exactly one index digit after BYTE (the evaluator reads exactly one)
+    parts = ctx.fold.module_const(EX, 'EXPRESSION_PARTS_PATTERN')
+    import re._constants as _sre
+    shape = None
+    for br in rx.top_branches(parts):
+        lits = ''.join(chr(a) for o, a in br if o == _sre.LITERAL)
+        if lits.startswith('BYTE'):
+            rest = [it for it in br if not (it[0] == _sre.LITERAL and chr(it[1]) in 'BYTE')]
+            shape = [str(o) for o, a in rest]
+            single = len(rest) == 2 and rest[0][0] == _sre.IN and rx.set_chars(rest[0][1]) == frozenset('0123456789') and rest[1] == (_sre.LITERAL, ord('('))
+    ctx.check(shape is not None and single, 'function:BYTEn-single-digit', 'src/bespokeasm/expression/__init__.py:20',
+              'the token pattern for BYTEn( admits exactly one index digit, the one the evaluator reads',
+              f'pattern items after BYTE: {shape}: a multi-digit index is lexed but only its first digit is used')
+    kw = ctx.fold.module_const('bespokeasm.assembler.keywords', 'EXPRESSION_FUNCTIONS_SET')
+    ctx.check(set(kw) == {'LSB'} | {f'BYTE{i}' for i in range(10)}, 'function:keyword-set', 'src/bespokeasm/assembler/keywords.py:16', 'the expression functions are LSB and BYTE0..BYTE9', str(sorted(kw)))
     # LSB -> index 0
     init = [n for n in ast.walk(comp.node) if isinstance(n, ast.Assign) and unparse(n.targets[0]) == 'byte_idx']
     ok = any(isinstance(n.value, ast.Constant) and n.value.value == 0 for n in init)
@@ -564,6 +591,11 @@ MUTANTS += [
             masked_arg = arg_value & (2**(8 * byte_count) - 1)''', '''            value_byte_count = max((abs(arg_value).bit_length() + 7) // 8, 1)
             masked_arg = arg_value & (2**(8 * value_byte_count) - 1)
             byte_count = max(value_byte_count, byte_idx+1)''', 'C07.5'),
+    V('c07-byte-multi-digit', _X, "BYTE\\d\\(|", "BYTE\\d+\\(|", 'C07.5'),
+    V('c07-byte-count-redefined', _X, '''            byte_count = max(((abs(arg_value).bit_length() + 7) // 8), byte_idx+1)
+            masked_arg = arg_value & (2**(8 * byte_count) - 1)''', '''            byte_count = (abs(arg_value).bit_length() + 7) // 8
+            masked_arg = arg_value & (2**(8 * byte_count) - 1)
+            byte_count = max(byte_count, byte_idx+1)''', 'C07.5'),
     V('c07-floor-final', _X, "        return int(calculated_value)", "        return int(calculated_value // 1)", 'C07.3'),
 ]
 TWINS = [
